@@ -351,8 +351,11 @@ def _part_a(case, ev):
         g = Graph([node])
         out = run_sync(g, supplied)
     else:
+        from hypergraph import SyncRunner
+
+        shared_runner = SyncRunner()  # the receiver is re-run on the SAME runner object below
         g = Graph([node] + ([waiter] if waiter is not None else []))
-        out = run_sync(g, supplied)
+        out = run_sync(g, supplied, runner=shared_runner)
     if out.status != "completed":
         raise Violation("c06.run_failed", f"[{kind}] run with {J(supplied)} gave {out.brief()}; inputs={cur_in} history={J(hist)}", kind_of_node=kind)
     if waiter is not None and not ctx.calls("waiter"):
@@ -387,7 +390,7 @@ def _part_a(case, ev):
         sup0 = {cur0[pos]: ("val0", pos) for pos in range(n_in) if pos not in eff_defaults or case["supply"][pos]}
         want0 = tuple(sup0.get(cur0[pos], eff_defaults.get(pos)) for pos in range(n_in))
         ctx.reset()
-        out0 = run_sync(Graph([node0]), sup0)
+        out0 = run_sync(Graph([node0]), sup0, runner=shared_runner)
         calls0 = ctx.calls(fid)
         if out0.status != "completed" or not calls0 or calls0[-1] != want0:
             raise Violation("c06.receiver_behaviour_changed", f"[{kind}] after the history {J(hist)} the ORIGINAL node (inputs {cur_in0}) run with {J(sup0)} gave {out0.brief()} / calls {J(calls0)}, expected arguments {J(want0)}", kind_of_node=kind)
